@@ -155,6 +155,7 @@ Definition audited : list audit := [
   A "object" "object.go" "Function.lambdaPrint" "indexc" 2 U "Statements[0] after len(Statements) != 1 short-circuit";
   A "object" "object.go" "Hashable" "assert" 1 U "o.(Float) under case FLOAT";
   A "object" "object.go" "Hashable" "slice" 2 U "smallArr[:len], smallKV[:len] with len <= capacity by construction";
+  A "object" "object.go" "lambdaBodyNeedsBraces" "index" 1 U "map lookup ast.Precedences[type]";
   A "object" "object.go" "MakePair" "indexc" 1 U "constant index into a fixed array";
   A "object" "object.go" "MakeQuad" "indexc" 2 U "constant index into a fixed array";
   A "object" "object.go" "NewMapSize" "make" 1 U "make(size = number of literal pairs)";
@@ -171,7 +172,7 @@ Definition audited : list audit := [
   A "object" "object.go" "SmallArray.Unwrap" "slice" 1 U "as above";
   A "object" "object.go" "SmallMap.Append" "make" 1 R "after MustBeOk(2*nl)";
   A "object" "object.go" "SmallMap.Append" "slice" 3 U "smallKV[:len] with len <= MaxSmallMap";
-  A "object" "object.go" "SmallMap.Delete" "index" 2 U "i+1 < len <= MaxSmallMap";
+  A "object" "object.go" "SmallMap.Delete" "index" 3 U "i+1 < len <= MaxSmallMap; smallKV[len] after len-- (len < MaxSmallMap)";
   A "object" "object.go" "SmallMap.First" "indexc" 1 U "after len == 0 test";
   A "object" "object.go" "SmallMap.Inspect" "index" 2 U "i < len";
   A "object" "object.go" "SmallMap.JSON" "slice" 1 U "smallKV[:len]";
